@@ -94,6 +94,7 @@ class World:
         for i in range(n_typed):
             self.datasets.append(DS(len(self.datasets), self.Event))
         self.streams = list(self.datasets)
+        self.mkind = ["any"] * n_untyped + ["Event"] * n_typed
         self.root = list(range(len(self.datasets)))
         self.parent = [None] * len(self.datasets)
         self.terminal = [False] * len(self.datasets)
@@ -116,7 +117,14 @@ class World:
     def observe(self, s):
         return (explore.plain_dump(s.query_ast, self.ds_index), repr(s.item_type))
 
+    MK = {("Event", "Select"): "num", ("Event", "Where"): "Event", ("Event", "SelectMany"): "Jet",
+          ("Jet", "Select"): "num", ("Jet", "Where"): "Jet", ("num", "Select"): "num", ("num", "Where"): "num"}
+
     def kind(self, i):
+        "the item kind the annotations imply for stream i (the model's knowledge, not the stream's claim)"
+        return self.mkind[i]
+
+    def kind_of_stream(self, i):
         t = self.streams[i].item_type
         if t is self.Event:
             return "Event"
@@ -137,6 +145,14 @@ class World:
         self.terminal.append(terminal)
         self.qmd.append(dict(self.qmd[parent]))
         self.deriv.append(deriv)
+        op = deriv[0]
+        pk = self.mkind[parent]
+        if op in ("MetaData", "QMetaData"):
+            self.mkind.append(pk)
+        elif op == "Where":
+            self.mkind.append(pk)
+        else:
+            self.mkind.append(self.MK.get((pk, op), "any"))
         self.snap.append(self.observe(s))
 
     # ---------------------------------------------------------------- operations
